@@ -33,6 +33,34 @@ def explore_auc(ctx, chk, x_axis, y_axis, stub=True, sc="pos", ec="pos"):
     return outs, caps
 
 
+def default_limits(ctx, chk, rule="R07.7"):
+    """auc() called without limits integrates over the whole x-range [0, 1] - the full AUC of the property (with declared easy samples the
+    evaluated curve stops short of x = 1 and the flat extension up to 1 is part of the area): the defaulted call equals auc(0.0, 1.0)."""
+    def run_with(args):
+        caps = []
+        for m in RATES:
+            def h(ev, fi, bound, m=m):
+                return App("RATE_" + m, (bound["threshold"],))
+            ctx.ev.stubs[SCORES + "." + m] = h
+        try:
+            return ctx.explore(lambda: ctx.ev.call(ctx.method(ctx.scores_obj("pos", "pos"), "auc"), list(args), {}), chk)
+        finally:
+            for m in RATES:
+                ctx.ev.stubs.pop(SCORES + "." + m, None)
+    try:
+        a = [o for o in run_with([]) if o.kind == "return"]
+        b = [o for o in run_with([Const(0), Const(1)]) if o.kind == "return"]
+    except Exception as e:  # noqa: BLE001
+        chk.unknown(rule, "auc() defaults: %s" % str(e)[:120])
+        return
+    if len(a) != 1 or len(b) != 1 or a[0].unmodelled or b[0].unmodelled:
+        chk.unknown(rule, "auc() defaults: %d / %d return paths" % (len(a), len(b)))
+    elif same(a[0].value, b[0].value):
+        chk.hold(rule, "defaults", "auc() = auc(lower=0.0, upper=1.0)")
+    else:
+        chk.violation(rule, AUCQ, "defaults", "auc() = %s" % show(a[0].value, 200), "auc(0.0, 1.0) = %s" % show(b[0].value, 200), ctx.where(AUCQ))
+
+
 def points_verdict(pts):
     """(True, msg) if pts = sort of the lower and upper floating-point neighbours of every pos and neg score;
     (False, msg) if understood and different; (None, msg) otherwise."""
@@ -199,6 +227,7 @@ def step_area(xs, ys, lower, upper):
 
 
 def numeric(ctx, chk, tier):
+    default_limits(ctx, chk)
     from .thr import reps_for, easy_for
     reps = [(k, v) for k, v in reps_for(tier) if tier == "thorough" or k in ("1v1", "2v2", "3v2", "2v3sep", "ties", "alltied")]
     easy = easy_for(tier)
@@ -295,3 +324,4 @@ def run(ctx, chk, tier):
     # the four axis rates are the rates of the object's own confusion matrix (an fnr computed some other way is no longer 1 - tpr)
     from . import c01
     c01.rates_from_cm(ctx, chk, metrics=("tpr", "fnr", "tnr", "fpr"))
+    c01.cm_cells_rule(ctx, chk)      # the curve is read off cm(): decision-rule counts in a buffer wide enough for declared easy counts
